@@ -135,14 +135,29 @@ func probeTwoStep() (bool, string) {
 // still reports them as indexed, so reads do not wait.
 func probeCompaction() (bool, string) {
 	cfg := probeCfg()
+	cfg.TxLogCache = 1
 	e, err := openDB(cfg)
 	if err != nil {
 		return false, ""
 	}
 	defer e.close()
-	for i := 0; i < 30; i++ {
-		mustSet(e, fmt.Sprintf("k%02d", i), "x")
+	// a tree of a few hundred keys: the dump takes long enough for writes to land meanwhile
+	for i := 0; i < 10; i++ {
+		req := &schema.SetRequest{}
+		for j := 0; j < 40; j++ {
+			req.KVs = append(req.KVs, &schema.KeyValue{Key: []byte(fmt.Sprintf("k%02d-%02d", i, j)), Value: []byte("x")})
+		}
+		if _, err := e.db.Set(bg, req); err != nil {
+			return false, ""
+		}
 	}
+	// slow tx-log reads: the indexer needs a little longer per transaction it (re-)indexes
+	slow := func(log string, op byte) {
+		if op == 'R' && log == "tx" {
+			time.Sleep(100 * time.Microsecond)
+		}
+	}
+	e.p.gate.Store(&slow)
 	if err := e.db.FlushIndex(&schema.FlushIndexRequest{}); err != nil {
 		return false, ""
 	}
@@ -197,9 +212,12 @@ func probeCompaction() (bool, string) {
 		}()
 	}
 	deadline := time.Now().Add(15 * time.Second)
-	n := 0
-	for ; n < 400 && found.Load() == nil && time.Now().Before(deadline); n++ {
-		e.db.CompactIndex()
+	n := 0 // compactions that took place
+	for n < 100 && found.Load() == nil && time.Now().Before(deadline) {
+		e.db.FlushIndex(&schema.FlushIndexRequest{}) // a compaction needs a flushed snapshot newer than the last dump
+		if e.db.CompactIndex() == nil {
+			n++
+		}
 	}
 	close(stop)
 	wg.Wait()
